@@ -909,7 +909,13 @@ func c15Described(c *Ctx) {
 			}
 		}
 		// the key is the description of the current value
-		kd := dependsOn(mu.Key, func(v ssa.Value) bool { return isElem(v) })
+		kd := dependsOn(mu.Key, func(v ssa.Value) bool {
+			if isElem(v) {
+				return true
+			}
+			ia, ok := v.(*ssa.IndexAddr) // values[i].Description read in place
+			return ok && ia.X == ssa.Value(values)
+		})
 		r.Check(kd, "C15.alias-rows", key+":key", p.IPos(mu), "keyed by the current value's description", "the row is stored under a key that does not come from the current value")
 	}
 	once := loopEveryIterationPasses(grp, isEmit)
@@ -932,8 +938,13 @@ func c15Described(c *Ctx) {
 		for _, in := range mu.Block().Instrs {
 			if call, ok := in.(*ssa.Call); ok {
 				if b, ok := call.Call.Value.(*ssa.Builtin); ok && b.Name() == "append" && typeStr(call.Type()) == "[]string" {
-					for _, ref := range referrersOf(call) {
-						if ph, ok := ref.(*ssa.Phi); ok && ph.Block() == grp.Head {
+					// the list carried around the loop (a phi at its head, possibly through the post / merge blocks) takes the appended value
+					for _, x := range grp.Head.Instrs {
+						ph, ok := x.(*ssa.Phi)
+						if !ok {
+							break
+						}
+						if typeStr(ph.Type()) == "[]string" && dependsOn(ph, func(v ssa.Value) bool { return v == ssa.Value(call) }) {
 							found = true
 						}
 					}
@@ -1379,6 +1390,53 @@ func groupWrap(g *ssa.Function, forward bool) (bool, string) {
 			}
 		}
 	})
+	if len(sets) == 1 {
+		// the modular spelling: groups[(pos+1) % len(groups)] forward, groups[(pos+len(groups)-1) % len(groups)] backward
+		fa := sets[0].Addr.(*ssa.FieldAddr)
+		if ld, ok := fa.X.(*ssa.UnOp); ok {
+			if ia, ok := ld.X.(*ssa.IndexAddr); ok {
+				if rem, ok := ia.Index.(*ssa.BinOp); ok && rem.Op == token.REM {
+					num, den := polyOf(rem.X, subst), polyOf(rem.Y, subst)
+					lenLeaf := ""
+					for k, v := range den {
+						if strings.HasPrefix(k, "len(") && v == 1 && len(den) == 1 {
+							lenLeaf = k
+						}
+					}
+					if lenLeaf == "" {
+						return false, "the modulus of the group index is not the number of groups"
+					}
+					want := poly{"pos": 1, "": 1}
+					if !forward {
+						want = poly{"pos": 1, lenLeaf: 1, "": -1}
+					}
+					// every len(groups) leaf is the same quantity: normalise the names
+					norm := poly{}
+					for k, v := range num {
+						if strings.HasPrefix(k, "len(") {
+							k = lenLeaf
+						}
+						norm[k] += v
+					}
+					if !polyEq(norm.clean(), want) {
+						return false, fmt.Sprintf("the walk goes to groups[(%s) %% len]", num)
+					}
+					cleared := false
+					eachInstr(g, func(in ssa.Instruction) {
+						if st, ok := isFieldStore(in, tGroup, "isCurrent"); ok {
+							if b, ok := constBool(st.Val); ok && !b {
+								cleared = true
+							}
+						}
+					})
+					if !cleared {
+						return false, "the previous current group keeps its flag"
+					}
+					return true, "steps by one modulo the number of groups, clears the old flag"
+				}
+			}
+		}
+	}
 	if len(sets) != 2 {
 		return false, fmt.Sprintf("%d stores isCurrent=true (want the wrap case and the step case)", len(sets))
 	}
